@@ -92,6 +92,8 @@ pub mod lang;
 pub mod bios;
 pub mod img;
 pub mod commands;
+#[cfg(a2kit_verif)]
+pub mod verif_hooks;
 
 use img::DiskImage;
 use fs::DiskFS;
